@@ -274,10 +274,12 @@ def check_allocs(rep):
             continue
         if cnt == 0:
             continue
-        kind = 'file' if label.startswith('file:') or label == 'bootcat' else label
+        kind = 'file' if label.startswith('file:') or label == 'bootcat' else ('udffe' if label.startswith('udf:fe:') else label)
         key = (first, cnt)
-        if kind == 'file':
-            objs.setdefault(('file', key), []).append(label)
+        if kind in ('file', 'udffe'):
+            # several names may legitimately reach one data extent / one UDF file entry (hard links);
+            # that they are links to ONE content is checked against the specification by compare_views
+            objs.setdefault((kind, key), []).append(label)
         else:
             objs.setdefault((label, key), []).append(label)
     items = sorted(((k[1][0], k[1][0] + k[1][1], k[0], v) for k, v in objs.items()))
@@ -296,6 +298,8 @@ def check_allocs(rep):
     for (a0, a1, ka, la), (b0, b1, kb, lb) in zip(items, items[1:]):
         if a1 > b0:
             bad.append(('overlap', '%s [%d,%d) overlaps %s [%d,%d)' % (la[0], a0, a1, lb[0], b0, b1)))
+    if items and max(t[1] for t in items) != space:
+        bad.append(('trailing-slack', 'last object ends at sector %d but the declared size is %d' % (max(t[1] for t in items), space)))
     for a0, a1, k, l in items:
         if a1 > space:
             bad.append(('out-of-bounds', '%s [%d,%d) beyond declared size %d' % (l[0], a0, a1, space)))
